@@ -1557,9 +1557,13 @@ impl<T: Storage> Raft<T> {
         // `maybe_first_index`. Note that snapshot updates configuration
         // already, so as long as pending entries don't contain conf change
         // it's safe to start campaign.
+        //
+        // The same holds for a snapshot that has been persisted but whose application
+        // has not been reported yet (`advance_apply_to` may lag behind): the entries
+        // it covers are gone from the log, so the scan must start at the first index.
         let low = match self.raft_log.unstable.maybe_first_index() {
             Some(idx) => idx,
-            None => self.raft_log.applied + 1,
+            None => cmp::max(self.raft_log.applied + 1, self.raft_log.first_index()),
         };
         let high = self.raft_log.committed + 1;
         let ctx = GetEntriesContext(GetEntriesFor::TransferLeader);
